@@ -205,5 +205,10 @@ const std::string &scratch_dir();  // per-worker scratch directory (exists)
 const std::string &tier();         // "quick" | "thorough"
 const std::string &build_dir();    // /verif/build
 bool known(const std::string &sig);  // signature listed as known finding
+// Per-case directory (isolated properties): exists and is empty when the case
+// starts, removed by the worker afterwards whatever the case process did.
+const std::string &case_dir();
+// Recursive removal that copes with trees deeper than PATH_MAX.
+void rm_rf(const std::string &path);
 
 }  // namespace fw
